@@ -687,7 +687,7 @@ pub open spec fn forked_at(t: VMThread, before: &VM, target: u32) -> bool {
         ensures
             r is Ok ==> final(vm).killed(),                                                     //@ob C08.ctl.invalid.ok_kills_thread C05.ctl.invalid.ok_kills_thread_so_dead_code_cannot_report_slots
             r is Ok ==> final(vm).ip() == old(vm).ip() && final(vm).code() == old(vm).code() && final(vm).queued() == old(vm).queued() && final(vm).log() == old(vm).log() && final(vm).config == old(vm).config,      //@ob C08.ctl.invalid.nothing_else_moves
-            r is Ok && *final(vm) == (VM { current_thread_killed: true, ..*old(vm) }),             //@ob C08.ctl.invalid.only_the_flag
+            r is Ok && *final(vm) == (VM { current_thread_killed: true, ..*old(vm) }),             //@ob C08.ctl.invalid.only_the_flag C10.ctl.invalid.every_wrapped_byte_ends_the_path_without_error
 //@end
 }
 
